@@ -154,7 +154,7 @@ Theorem C04_maybe_raise_code :
 Proof. exact maybe_raise_code. Qed.
 Print Assumptions C04_maybe_raise_code.
 
-(* the complete correspondence matrix (11520 cells incl. the sixth event kind, status and variant dimensions), inside the
+(* the complete correspondence matrix (20160 cells: 10 operations incl. the context exit and the stub-style call, 6 events, 7 statuses, 3 variants), inside the
    model and on the generated operations: pending at quiescence EXACTLY in the D6 class (hence
    `_partial`); everywhere else -- also for a context exit entered after a connection-level event -- the
    operation ends with a termination error and the call with exactly the error the property asks for
